@@ -248,7 +248,7 @@ def dec(t):
     raise ValueError("cannot decode kind " + k)
 
 
-def dec_shared(t, memo=None):
+def dec_shared(t, memo=None, names=False):
     """Decode with structure sharing: structurally equal sub-terms become THE SAME ast object (a DAG, as
     func_adl itself produces when a substituted argument is used twice).  Leaves that carry a context
     (names) and lambda argument lists are not shared."""
@@ -258,27 +258,32 @@ def dec_shared(t, memo=None):
     if key in memo:
         return memo[key]
     if not t["a"]:
+        if names and t["k"] == "name":
+            # also the function NAMES of calls are one object where they are equal (what substituting a function name
+            # for a parameter that is called twice produces)
+            memo[key] = dec(t)
+            return memo[key]
         return dec(t)
     node = dec(t)
     # rebuild children through the memo so that equal children are one object
     if isinstance(node, ast.Call):
         n = t["n"]
-        node.func = dec_shared(t["a"][0], memo)
-        node.args = [dec_shared(x, memo) for x in t["a"][1:1 + n]]
-        node.keywords = [ast.keyword(arg=kw, value=dec_shared(v, memo)) for kw, v in zip(t["p"], t["a"][1 + n:])]
+        node.func = dec_shared(t["a"][0], memo, names)
+        node.args = [dec_shared(x, memo, names) for x in t["a"][1:1 + n]]
+        node.keywords = [ast.keyword(arg=kw, value=dec_shared(v, memo, names)) for kw, v in zip(t["p"], t["a"][1 + n:])]
     elif isinstance(node, ast.Attribute):
-        node.value = dec_shared(t["a"][0], memo)
+        node.value = dec_shared(t["a"][0], memo, names)
     elif isinstance(node, ast.Lambda):
-        node.body = dec_shared(t["a"][0], memo)
+        node.body = dec_shared(t["a"][0], memo, names)
     elif isinstance(node, ast.BinOp):
-        node.left, node.right = dec_shared(t["a"][0], memo), dec_shared(t["a"][1], memo)
+        node.left, node.right = dec_shared(t["a"][0], memo, names), dec_shared(t["a"][1], memo, names)
     elif isinstance(node, (ast.Tuple, ast.List)):
-        node.elts = [dec_shared(x, memo) for x in t["a"]]
+        node.elts = [dec_shared(x, memo, names) for x in t["a"]]
     elif isinstance(node, ast.Compare):
-        node.left = dec_shared(t["a"][0], memo)
-        node.comparators = [dec_shared(x, memo) for x in t["a"][1:]]
+        node.left = dec_shared(t["a"][0], memo, names)
+        node.comparators = [dec_shared(x, memo, names) for x in t["a"][1:]]
     elif isinstance(node, ast.Subscript):
-        node.value = dec_shared(t["a"][0], memo)
+        node.value = dec_shared(t["a"][0], memo, names)
     memo[key] = node
     return node
 
